@@ -173,6 +173,7 @@ import (
 	"io"
 	"log"
 	"os"
+	"sync"
 	"time"
 
 	AppCore "github.com/goblimey/go-ntrip/apps/appcore"
@@ -223,7 +224,13 @@ func HandleMessages(startTime time.Time, reader io.Reader, writer io.Writer, con
 	writer.Write([]byte("18 seconds ahead of UTC\n\n"))
 
 	messageChan := make(chan rtcm.Message, 2)
-	go DisplayMessages(messageChan, writer)
+	// displayDone is used to wait for DisplayMessages to finish writing.
+	var displayDone sync.WaitGroup
+	displayDone.Add(1)
+	go func() {
+		defer displayDone.Done()
+		DisplayMessages(messageChan, writer)
+	}()
 
 	channels := make([]chan rtcm.Message, 0)
 	channels = append(channels, messageChan)
@@ -231,6 +238,10 @@ func HandleMessages(startTime time.Time, reader io.Reader, writer io.Writer, con
 	appCore.HandleMessagesUntilEOF(startTime, bufferedReader)
 
 	close(messageChan)
+
+	// The caller exits as soon as this returns, so wait until
+	// all of the messages have been written.
+	displayDone.Wait()
 }
 
 // DisplayMessages receives messages from the given channel, produces a
